@@ -165,12 +165,9 @@ def replay_file(path, timeout=600):
     return None, out
 
 
-def run_property(pid, tier, modname, cases, opts=None, level="model_checking", assumptions=(), bounds=None,
-                 rule="", extra_coverage=None, pre_results=None, nproc=None):
-    """Explore all cases, triage violations, write evidence, return the exit code."""
-    t0 = time.time()
+def collect(modname, cases, opts=None, nproc=None):
+    """explore all cases (in parallel) -> list of per-case results"""
     opts = opts or {}
-    seed = int(os.environ.get("VERIF_SEED", "0") or 0)
     nproc = nproc or int(os.environ.get("VERIF_NPROC", "16"))
     results = []
     work = [(modname, c, opts) for c in cases]
@@ -186,6 +183,17 @@ def run_property(pid, tier, modname, cases, opts=None, level="model_checking", a
     else:
         for w in work:
             results.append(_explore_case(w))
+    return results
+
+
+def run_property(pid, tier, modname, cases, opts=None, level="model_checking", assumptions=(), bounds=None,
+                 rule="", extra_coverage=None, pre_results=None, nproc=None):
+    """Explore all cases, triage violations, write evidence, return the exit code."""
+    t0 = time.time()
+    opts = opts or {}
+    seed = int(os.environ.get("VERIF_SEED", "0") or 0)
+    nproc = nproc or int(os.environ.get("VERIF_NPROC", "16"))
+    results = collect(modname, cases, opts, nproc)
     results.sort(key=lambda r: str(r['case'].get('id')))
     if pre_results:
         results = list(pre_results) + results
@@ -279,7 +287,7 @@ def run_property(pid, tier, modname, cases, opts=None, level="model_checking", a
                       "symbolic inputs satisfying its path condition); distinct = distinct (case, decision trace); "
                       "non-trivial = at least one z3 assertion query was discharged on it"),
         samples=samples[:6] or [dict(note="no path")],
-        cases=len(cases),
+        cases=len(results),
         obligations=int(sum(r['claims'] for r in results)),
         discharged=int(sum(r['proved'] for r in results)),
         queries=dict(assertion=int(stats.get('assert_queries', 0)), feasibility=int(stats.get('feas_queries', 0)),
@@ -313,7 +321,7 @@ def run_property(pid, tier, modname, cases, opts=None, level="model_checking", a
         json.dump(ev, f, indent=1, default=str)
 
     print("%s %s: cases=%d paths=%d obligations=%d discharged=%d sat=%d unknown=%d known=%d violations=%d "
-          "solver=%.1fs wall=%.1fs" % (pid, tier, len(cases), paths, coverage['obligations'], coverage['discharged'],
+          "solver=%.1fs wall=%.1fs" % (pid, tier, len(results), paths, coverage['obligations'], coverage['discharged'],
                                        coverage['queries']['sat'], coverage['queries']['unknown'], len(known_hits),
                                        len(violations), coverage['solver_seconds'], time.time() - t0))
     if violations:
